@@ -348,8 +348,334 @@ def jmi_proofs(uid, work, mk_proof, which):
 
 
 ASSUMED_EXT = [
+    'QXmppJinglePayloadType: QMap<QString, QString> as a bounded map model (at most 2 entries, insert replaces, iteration in storage order); the file-static rtcp-fb helpers (XEP-0293 lists) are contract-only stubs: a function of the element on parse, must be empty on serialisation; the parsed object starts as the real constructor initialisers leave it; stated domain channels >= 1',
+    'QXmppJingleIq::Content::parse payload loop: description setters, encryption scan, rtcp-fb / header-extension helpers, candidates and fingerprint are contract-only stubs; QXmppJingleDescription::addPayloadType appends a copy (ghost: the copy at the witness position); a local QXmppJinglePayloadType has its own private record built by the real constructor initialisers; bounded to 2 payload types with at most 1 parameter each, at most 1 other child / candidate',
+    'QXmppOutgoingClient::handleElement (C02): every callee is a contract-only stub with an arbitrary result; StreamErrorElement::fromDom returns either alternative of its std::variant (assumed contract); std::get_if yields null for the inactive alternative, std::get throws (obligation safety.no_exception_escapes, the path ends)',
     'definedness instrumentation (units/C01/ext.py instrument_def): a scalar data member without in-class initialiser whose owner is created by a non-zeroing `new T` (read from clang\'s AST: CXXConstructExpr.zeroing) starts indeterminate (nondeterministic value, ghost flag false); every assignment to it in the lowered parser sets the flag, every read in the lowered serialiser / getter asserts it (obligation safety.member_<m>_defined_when_read); members of class type (QString, QDateTime, std::optional) are default-constructed',
     'QXmppStanza::Error: the parsed object starts in the state QXmppStanza::Error() leaves; stated domain of the round trip: the error says something (condition or type set; otherwise toXml writes nothing), legacy code >= 0, redirection URI only with <gone/> / <redirect/>, retry date only without file-too-large, maxFileSize only with fileTooLarge; C02 stand-in bounded to foreign <error/> elements with at most 3 children',
     'QXmppJingleMessageInitiationElement: std::optional<QXmppJingleDescription> / std::optional<QXmppJingleReason> are opaque sub-objects that must be absent (contract-only stubs; foreign elements with a <description/> or <reason/> child excluded); QDomNode::nodeName() = tagName() (no prefixes in the abstract tree); stated domain of the round trip: type != None, non-empty id, tie-break only in <reject/> / <retract/>, migration target only in <finish/>; observation: an element with an EMPTY id attribute satisfies isJingleMessageInitiationElement but its re-serialisation (id omitted) does not',
     'the call site QXmppMessage::parseExtension (stores a JMI element exactly when isJingleMessageInitiationElement holds, then parse) is a listed call site: the harness makes the same decision with the real recogniser; QXmppMessage itself is not lowered',
 ]
+
+
+# ---------------------------------------------------------------------------------------------------------------------
+# QXmppJinglePayloadType (6 attributes, the <parameter/> map as a BOUNDED map of at most 2 entries; rtcp-fb lists contract-only)
+PT = 'QXmppJinglePayloadType'
+PT_HELPERS = {
+    'PayloadType_parse': (JINGLE, PT + '::parse', 'parse', {'this': 'PayloadType'}, ''),
+    'PayloadType_toXml': (JINGLE, PT + '::toXml', 'toXml', {'this': 'PayloadType'}, ''),
+}
+PT_MODEL = '''
+/* QMap<QString, QString>, BOUNDED model: at most 2 entries with distinct keys; insert() replaces the value of an existing key;
+   iteration in storage order (equality below is order independent) */
+typedef struct qstrmap { int n; qstr k[2]; qstr v[2]; } qstrmap;
+typedef struct qstrmap_it { const qstrmap *m; int i; } qstrmap_it;
+#define QSTRMAP_WF(a) ((a).n >= 0 && (a).n <= 2 && ((a).n < 2 || (a).k[0] != (a).k[1]))
+#define QSTRMAP_HAS(a, key, val) (((a).n > 0 && (a).k[0] == (key) && (a).v[0] == (val)) || ((a).n > 1 && (a).k[1] == (key) && (a).v[1] == (val)))
+#define QSTRMAP_EQ(a, b) ((a).n == (b).n && ((a).n < 1 || QSTRMAP_HAS(b, (a).k[0], (a).v[0])) && ((a).n < 2 || QSTRMAP_HAS(b, (a).k[1], (a).v[1])))
+static inline void qstrmap_insert(qstrmap *m, qstr key, qstr val) {
+  if (m->n > 0 && m->k[0] == key) { m->v[0] = val; return; }
+  if (m->n > 1 && m->k[1] == key) { m->v[1] = val; return; }
+  __CPROVER_assume(m->n >= 0 && m->n < 2);      /* bound of the stand-in */
+  m->k[m->n] = key; m->v[m->n] = val; m->n++; }
+static inline void qstrmap_begin(qstrmap_it *_ret, const qstrmap *m) { _ret->m = m; _ret->i = 0; }
+static inline void qstrmap_end(qstrmap_it *_ret, const qstrmap *m) { _ret->m = m; _ret->i = m->n; }
+static inline bool qstrmap_it_ne(const qstrmap_it *a, const qstrmap_it *b) { return a->i != b->i; }
+static inline void qstrmap_it_inc(qstrmap_it *a) { if (a->i < 2) a->i++; }
+static inline qstr qstrmap_it_key(const qstrmap_it *a) { __CPROVER_assume(a->i >= 0 && a->i < 2); return a->m->k[a->i]; }
+static inline qstr qstrmap_it_value(const qstrmap_it *a) { __CPROVER_assume(a->i >= 0 && a->i < 2); return a->m->v[a->i]; }
+/* contract-only stubs of the file-static rtcp-fb helpers (XEP-0293 sub-object lists, NOT covered): the lists must be empty to be
+   serialised; the parser appends only when the element has an <rtcp-fb/> or <rtcp-fb-trr-int/> child */
+typedef int qsub;
+qsub nondet_qsub(void);
+qsub __CPROVER_uninterpreted_rtcpfb_props(qdom e);
+qsub __CPROVER_uninterpreted_rtcpfb_intervals(qdom e);
+#define HAS_RTCP_FB(e) (__CPROVER_uninterpreted_dom_first_child((e), S("rtcp-fb"), 0) != 0 || __CPROVER_uninterpreted_dom_first_child((e), S("rtcp-fb-trr-int"), 0) != 0)
+static inline void rtcpfb_parse_stub(qdom parent, qsub *props, qsub *intervals) {
+  if (X_BUILT(parent)) { if (xdom_firstChildElement(parent, S("rtcp-fb"), 0) == 0 && xdom_firstChildElement(parent, S("rtcp-fb-trr-int"), 0) == 0) return; }
+  else if (parent == 0 || !HAS_RTCP_FB(parent)) return;
+  *props = __CPROVER_uninterpreted_rtcpfb_props(parent); *intervals = __CPROVER_uninterpreted_rtcpfb_intervals(parent); }   /* a function of the element */
+static inline void rtcpfb_toXml_stub(xw *w, qsub props, qsub intervals) { (void)w; MODEL_LIMIT(props == 0 && intervals == 0, "rtcp-fb lists are not empty (sub-objects not represented)"); }
+'''
+
+
+def pt_kit(uid, work):
+    T = codec.SCALAR_TYPES
+    T.update({PT: 'PayloadType', PT + 'Private': 'PayloadTypePrivate', 'QSharedDataPointer<%sPrivate>' % PT: 'PayloadTypePrivate*',
+              'QMap<QString,QString>': 'qstrmap', 'QMap<QString,QString>::iterator': 'qstrmap_it', 'QMap<QString,QString>::const_iterator': 'qstrmap_it',
+              'QVector<QXmppJingleRtpFeedbackProperty>': 'qsub', 'QVector<QXmppJingleRtpFeedbackInterval>': 'qsub'})
+    codec.HELPERS.update(PT_HELPERS)
+    kit = codec.Kit(uid, work)
+    kit.prof.calls.update({
+        'op->:PayloadTypePrivate*': ('arg', 0),
+        'qstrmap::insert/2': ('fn', 'qstrmap_insert'),
+        'qstrmap::begin/0': ('fnret', 'qstrmap_begin', 'qstrmap_it'), 'qstrmap::end/0': ('fnret', 'qstrmap_end', 'qstrmap_it'),
+        'qstrmap::constBegin/0': ('fnret', 'qstrmap_begin', 'qstrmap_it'), 'qstrmap::constEnd/0': ('fnret', 'qstrmap_end', 'qstrmap_it'),
+        'op!=:qstrmap_it:qstrmap_it': ('fn', 'qstrmap_it_ne'),
+        'op++:qstrmap_it:qint32': lambda lw, node, args: 'qstrmap_it_inc(%s)' % args[0], 'op++:qstrmap_it': ('fn', 'qstrmap_it_inc'),
+        'qstrmap_it::key/0': ('fn', 'qstrmap_it_key'), 'qstrmap_it::value/0': ('fn', 'qstrmap_it_value'),
+        'fn:parseJingleRtpFeedbackNegotiationElements/3': ('fn', 'rtcpfb_parse_stub'),
+        'fn:jingleRtpFeedbackNegotiationElementsToXml/3': ('fn', 'rtcpfb_toXml_stub'),
+        'xw::writeAttribute/2': ('fn', 'xw_writeAttribute'),
+    })
+    kit.prof.class_types |= {'PayloadType', 'PayloadTypePrivate', 'qstrmap', 'qstrmap_it'}
+    kit.prefetch([(JINGLE, PT + 'Private'), (JINGLE, PT + '::parse'), (JINGLE, PT + '::toXml')])
+    rec, fields = presence.private_record(JINGLE, PT + 'Private', 'PayloadTypePrivate')
+    kit.fields = fields
+    kit.records = kit.records + kit.b.subst(PT_MODEL) + rec + '\ntypedef struct PayloadType { PayloadTypePrivate *d; } PayloadType;\n'
+    for r in ('PayloadType_toXml', 'PayloadType_parse'):
+        kit.need(r)
+    kit.ctor = iq.lower_ctor(kit, JINGLE, PT + 'Private::' + PT + 'Private', PT + 'Private', 'PayloadTypePrivate_ctor', 'PayloadTypePrivate')
+    return kit
+
+
+def pt_eq(kit, a, b):
+    out = []
+    for f, t in kit.fields:
+        if t == 'qsub':
+            continue
+        e = 'QSTRMAP_EQ(%s->d->%s, %s->d->%s)' % (a, f, b, f) if t == 'qstrmap' else iq.eq(t, '%s->d->%s' % (a, f), '%s->d->%s' % (b, f))
+        out.append((f, e))
+    return out
+
+
+PT_BOUND = 'QXmppJinglePayloadType carries at most 2 <parameter/> entries (bounded QMap model); loops unwound 4 times with unwinding assertions'
+PT_FINDING = 'payloadtype-channels-zero'
+
+
+def pt_proofs(uid, work, mk_proof, which):
+    kit = pt_kit(uid, work)
+    roots = ['PayloadType_toXml', 'PayloadType_parse']
+    fresh = '__CPROVER_is_fresh({v}, sizeof(*{v})) && __CPROVER_is_fresh({v}->d, sizeof(*{v}->d))'
+    uw = ['PayloadType_toXml.0:4', 'PayloadType_parse.0:4']
+    out = []
+    if which == 'roundtrip':
+        L = ['__CPROVER_requires(%s)' % fresh.format(v='x'), '__CPROVER_requires(%s)' % fresh.format(v='y'),
+             '__CPROVER_requires(QSTRMAP_WF(x->d->parameters))',
+             '/* stated domain: at least one channel (0 channels is written like the default 1); rtcp-fb sub-object lists empty (not covered) */',
+             '__CPROVER_requires(x->d->channels >= 1 && x->d->rtpFeedbackProperties == 0 && x->d->rtpFeedbackIntervals == 0)',
+             '__CPROVER_assigns(*y->d, gh_x)',
+             '//: post.output_is_one_complete_well_formed_element', '__CPROVER_ensures(XW_ONE_COMPLETE_ELEMENT())']
+        for f, e in pt_eq(kit, 'y', 'x'):
+            L += ['//: post.member_%s_survives_the_round_trip' % f, '__CPROVER_ensures(%s)' % e]
+        sp = Spec(kit.b.subst('## contract\n' + '\n'.join(L) + '\n'))
+        body = kit.ctor + ('\nvoid PayloadType_roundtrip(const PayloadType *x, PayloadType *y)\n%s\n{\n  xw w;\n  xw_reset();\n  PayloadType_toXml(x, &w);\n  xw_finish();\n'
+                           '  PayloadTypePrivate_ctor(y->d);   /* y = QXmppJinglePayloadType() */\n  PayloadType_parse(y, gh_x.root);\n}\n' % sp.contract)
+        out.append(mk_proof(kit, 'QXmppJinglePayloadType_roundtrip', roots, 'PayloadType_roundtrip', sp, body, 'void h_PayloadType_roundtrip(void) { PayloadType *x; PayloadType *y; PayloadType_roundtrip(x, y); }',
+                            kind='bounded', bound_text=PT_BOUND, unwindset=uw, defines=['XWIDE', 'XN=4'],
+                            note='real QXmppJinglePayloadType::toXml, parse, parseInt<uint8_t>, the private constructor initialisers; id / channels over 0..255 (channels >= 1), clockrate / maxptime / ptime over the whole unsigned range, name, parameters as a map'))
+    else:
+        fid = '%s-%s' % (uid, PT_FINDING)
+        macros = kit.b.subst('#define PAR1(e) __CPROVER_uninterpreted_dom_first_child((e), S("parameter"), 0)\n#define PAR2(e) __CPROVER_uninterpreted_dom_next_sibling(PAR1(e), S("parameter"), 0)\n'
+                             '#define PAR3(e) __CPROVER_uninterpreted_dom_next_sibling(PAR2(e), S("parameter"), 0)\n')
+        for pid, guard, f in (('QXmppJinglePayloadType_fixpoint', 'a->d->channels != 0', None), ('QXmppJinglePayloadType_fixpoint@' + fid, 'a->d->channels == 0', fid)):
+            L = ['__CPROVER_requires(%s)' % fresh.format(v='a'), '__CPROVER_requires(%s)' % fresh.format(v='b'),
+                 '__CPROVER_requires(!X_BUILT(e))',
+                 '/* BOUND of this stand-in: at most two <parameter/> children; no rtcp-fb children (sub-objects not covered) */',
+                 '__CPROVER_requires(e == 0 || ((PAR1(e) == 0 || PAR2(e) == 0 || PAR3(e) == 0) && !HAS_RTCP_FB(e)))',
+                 '__CPROVER_assigns(*a->d, *b->d, gh_x)',
+                 '//: post.parsed_object_serialises_to_one_well_formed_element', '__CPROVER_ensures(XW_ONE_COMPLETE_ELEMENT())']
+            for m, e in pt_eq(kit, 'b', 'a'):
+                L += ['//: post.second_parse_gives_the_same_%s' % m, '__CPROVER_ensures((%s) ==> %s)' % (guard, e)]
+            sp = Spec(kit.b.subst('## contract\n' + '\n'.join(L) + '\n'))
+            body = kit.ctor + '\n' + macros + ('void PayloadType_fixpoint(qdom e, PayloadType *a, PayloadType *b)\n%s\n{\n  xw w;\n  xw_reset();\n  PayloadTypePrivate_ctor(a->d);\n  PayloadType_parse(a, e);\n'
+                                               '  PayloadType_toXml(a, &w);\n  xw_finish();\n  PayloadTypePrivate_ctor(b->d);\n  PayloadType_parse(b, gh_x.root);\n}\n' % sp.contract)
+            out.append(mk_proof(kit, pid, roots, 'PayloadType_fixpoint', sp, body, 'void h_PayloadType_fixpoint(void) { qdom e; PayloadType *a; PayloadType *b; PayloadType_fixpoint(e, a, b); }',
+                                finding=f, kind='bounded', bound_text=PT_BOUND + '; the foreign element has at most 2 <parameter/> children and no rtcp-fb children', unwindset=uw, defines=['XWIDE', 'XN=4'],
+                                note='ARBITRARY foreign <payload-type/> (every attribute text: negative, huge, non-numeric); real parse, toXml, parse' + ('; RESTRICTED to parse results in the input class of finding ' + f if f else '; parse results with 0 channels excluded (recorded finding %s)' % fid)))
+    return kit, out
+
+
+# ---------------------------------------------------------------------------------------------------------------------
+# QXmppJingleIq::Content::parse: the payload-type loop ("each stored payload type is parse() applied to a FRESH default object")
+CT_STUBS = '''
+/* contract-only stubs for the sub-objects of a Jingle content (description header, encryption, header extensions, candidates, fingerprint): NOT covered */
+bool __CPROVER_uninterpreted_is_rtp_encryption(qdom e);
+qbytes __CPROVER_uninterpreted_fingerprint(qstr s);
+qsub __CPROVER_uninterpreted_sub_parse(qdom e);
+static inline void qsub_touch(qsub *s, int v) { (void)v; *s = nondet_qsub(); }
+static inline void qsub_parse_det(qsub *s, qdom e) { *s = __CPROVER_uninterpreted_sub_parse(e); }
+static inline void qsub_push(qsub *s, int v) { (void)v; *s = nondet_qsub(); }
+static inline void hdrext_parse_stub(qdom parent, qsub *props, bool *mixing) { (void)parent; *props = nondet_qsub(); *mixing = nondet_bool(); }
+/* QXmppJinglePayloadType payload;  -- a local object with its own private record, constructed by the real constructor initialisers */
+PayloadTypePrivate gh_pt_pool[2]; int gh_pt_used;
+void PayloadTypePrivate_ctor(PayloadTypePrivate *self);
+static inline void PayloadType_construct(PayloadType *p) { MODEL_LIMIT(gh_pt_used < 2, "more QXmppJinglePayloadType locals than the model holds"); p->d = &gh_pt_pool[gh_pt_used < 2 ? gh_pt_used : 0]; gh_pt_used++; PayloadTypePrivate_ctor(p->d); }
+/* QXmppJingleDescription::addPayloadType(payload): appends a COPY; the ghost keeps the copy appended at the witness position g_k */
+extern int g_k;
+int gh_pt_count; PayloadTypePrivate gh_pt_stored;
+static inline void desc_addPayloadType(qsub *desc, const PayloadType *p) { (void)desc; if (gh_pt_count == g_k) gh_pt_stored = *p->d; if (gh_pt_count < 1000) gh_pt_count++; }
+'''
+CT = 'QXmppJingleIq::Content'
+
+
+def content_proofs(uid, work, mk_proof, which):
+    """C01 only: the loop contract of Content::parse (there is no separate fixpoint statement for it)"""
+    if which != 'roundtrip':
+        return None, []
+    kit = pt_kit(uid, work)
+    T = codec.SCALAR_TYPES
+    T.update({CT: 'JContent', 'Content': 'JContent', 'QXmppJingleIqContentPrivate': 'JContentPrivate', 'QSharedDataPointer<QXmppJingleIqContentPrivate>': 'JContentPrivate*'})
+    for t in ('QXmppJingleDescription', 'QList<QXmppJingleCandidate>', 'QXmppJingleCandidate', 'std::optional<QXmppJingleRtpEncryption>', 'QXmppJingleRtpEncryption',
+              'QVector<QXmppJingleRtpHeaderExtensionProperty>'):
+        T[t] = 'qsub'
+    codec.HELPERS['JContent_parse'] = (JINGLE, CT + '::parse', 'parse', {'this': 'JContent'}, '')
+    kit.prof.calls.update({
+        'op->:JContentPrivate*': ('arg', 0),
+        'qsub::setType/1': ('fnmut', 'qsub_touch'), 'qsub::setMedia/1': ('fnmut', 'qsub_touch'), 'qsub::setSsrc/1': ('fnmut', 'qsub_touch'),
+        'qsub::addPayloadType/1': ('fnmut', 'desc_addPayloadType'),
+        'fn:isJingleRtpEncryption/1': ('fn', '__CPROVER_uninterpreted_is_rtp_encryption'),
+        'qsub::parse/1': ('fnmut', 'qsub_parse_det'),
+        'op=:qsub:qsub': ('expr', '{v0} = {1}'),
+        'op<<:qsub:qsub': lambda lw, node, args: 'qsub_push(%s, %s)' % (lw.addr_of(args[0]), args[1]),
+        'ctor:qsub()': ('const', '0'),
+        'fn:parseJingleRtpHeaderExtensionsNegotiationElements/3': ('fn', 'hdrext_parse_stub'),
+        'fn:parseFingerprint/1': ('fn', '__CPROVER_uninterpreted_fingerprint'),
+        'ctor:PayloadType()': ('fn', 'PayloadType_construct'),
+        'PayloadType::parse/1': ('callee', 'PayloadType_parse'),
+    })
+    kit.prof.class_types |= {'JContent', 'JContentPrivate'}
+    kit.prefetch([(JINGLE, 'QXmppJingleIqContentPrivate'), (JINGLE, CT + '::parse')])
+    rec, fields = presence.private_record(JINGLE, 'QXmppJingleIqContentPrivate', 'JContentPrivate')
+    kit.records = kit.records + rec + '\ntypedef struct JContent { JContentPrivate *d; } JContent;\n' + CT_STUBS
+    kit.need('JContent_parse')
+    fresh = '__CPROVER_is_fresh({v}, sizeof(*{v})) && __CPROVER_is_fresh({v}->d, sizeof(*{v}->d))'
+    macros = kit.b.subst('#define DESC(e) __CPROVER_uninterpreted_dom_first_child((e), S("description"), 0)\n#define PT1(e) __CPROVER_uninterpreted_dom_first_child(DESC(e), S("payload-type"), 0)\n'
+                         '#define PT2(e) __CPROVER_uninterpreted_dom_next_sibling(PT1(e), S("payload-type"), 0)\n#define PT3(e) __CPROVER_uninterpreted_dom_next_sibling(PT2(e), S("payload-type"), 0)\n'
+                         '#define PTK(e) (g_k == 0 ? PT1(e) : PT2(e))\n#define ANY1(p) __CPROVER_uninterpreted_dom_first_child((p), 0, 0)\n#define ANY2(p) __CPROVER_uninterpreted_dom_next_sibling(ANY1(p), 0, 0)\n'
+                         '#define TRANSPORT(e) __CPROVER_uninterpreted_dom_first_child((e), S("transport"), 0)\n#define CAND1(e) __CPROVER_uninterpreted_dom_first_child(TRANSPORT(e), S("candidate"), 0)\n'
+                         '#define CAND2(e) __CPROVER_uninterpreted_dom_next_sibling(CAND1(e), S("candidate"), 0)\n'
+                         '#define ONEPAR(c) (__CPROVER_uninterpreted_dom_first_child((c), S("parameter"), 0) == 0 || __CPROVER_uninterpreted_dom_next_sibling(__CPROVER_uninterpreted_dom_first_child((c), S("parameter"), 0), S("parameter"), 0) == 0)\n'
+                         'PayloadTypePrivate gh_pt_fresh;   /* parse() applied to a fresh default object and the g_k-th <payload-type/> child alone */\n')
+    eqs = []
+    for f, t in kit.fields:
+        if t == 'qstrmap':
+            eqs.append((f, 'QSTRMAP_EQ(gh_pt_stored.%s, gh_pt_fresh.%s)' % (f, f)))
+        else:
+            eqs.append((f, iq.eq(t, 'gh_pt_stored.' + f, 'gh_pt_fresh.' + f)))
+    L = ['__CPROVER_requires(%s)' % fresh.format(v='c'), '__CPROVER_requires(!X_BUILT(e) && e != 0 && DESC(e) != 0)',
+         '/* BOUND of this stand-in: at most 2 <payload-type/> children (each with at most 2 parameters: bounded map); witness position g_k;',
+         '   the loops over sub-objects that are stubs anyway see at most one element (encryption scan, candidates) */',
+         '__CPROVER_requires(PT1(e) == 0 || PT2(e) == 0 || PT3(e) == 0)', '__CPROVER_requires(g_k >= 0 && g_k <= 1)',
+         '__CPROVER_requires((ANY1(DESC(e)) == 0 || ANY2(DESC(e)) == 0) && (TRANSPORT(e) == 0 || CAND1(e) == 0 || CAND2(e) == 0))',
+         '__CPROVER_requires((PT1(e) == 0 || ONEPAR(PT1(e))) && (PT1(e) == 0 || PT2(e) == 0 || ONEPAR(PT2(e))))   /* at most one <parameter/> per payload type */',
+         '__CPROVER_assigns(*c->d, gh_pt_pool, gh_pt_used, gh_pt_count, gh_pt_stored, gh_pt_fresh)',
+         '//: post.one_payload_type_is_stored_per_child',
+         '__CPROVER_ensures(gh_pt_count == (PT1(e) == 0 ? 0 : PT2(e) == 0 ? 1 : 2))']
+    for f, e_ in eqs:
+        L += ['//: post.kth_stored_payload_type_is_parse_of_the_kth_child_on_a_fresh_object_%s' % f, '__CPROVER_ensures(gh_pt_count > g_k ==> %s)' % e_]
+    sp = Spec(kit.b.subst('## contract\n' + '\n'.join(L) + '\n'))
+    # plain harness (no contract instrumentation: the write-set checks of dfcc cost 8 minutes here and add nothing for a harness-owned state):
+    # the requires clauses become assumptions on the harness's nondeterministic inputs, every ensures clause a labelled assertion
+    reqs = [m for m in re.findall(r'__CPROVER_requires\((.*)\)\s*(?:/\*.*\*/)?\s*$', sp.contract, re.M) if 'is_fresh' not in m]
+    enss = re.findall(r'__CPROVER_ensures\((.*)\)\s*$', sp.contract, re.M)
+    enss = ['!(%s) || (%s)' % tuple(x.split(' ==> ', 1)) if ' ==> ' in x else x for x in enss]
+    if len(enss) != len(sp.labels):
+        raise Unsupported('content loop harness: %d ensures for %d labels' % (len(enss), len(sp.labels)))
+    body = macros + ('void JContent_parse_payloads(qdom e, JContent *c)\n{\n  gh_pt_used = 0; gh_pt_count = 0;\n  JContent_parse(c, e);\n'
+                     '  /* specification side: a fresh default object parses the g_k-th child alone */\n  PayloadType f; f.d = &gh_pt_fresh; PayloadTypePrivate_ctor(f.d);\n  if (gh_pt_count > g_k) PayloadType_parse(&f, PTK(e));\n}\n')
+    harness = ('void h_JContent_parse_payloads(void) {\n  JContentPrivate cp; JContent C; C.d = &cp; JContent *c = &C; qdom e = nondet_int(); g_k = nondet_int();\n'
+               + ''.join('  __CPROVER_assume(%s);\n' % r for r in reqs) + '  JContent_parse_payloads(e, c);\n'
+               + ''.join('  __CPROVER_assert(%s, "[%s] payload loop of QXmppJingleIq::Content::parse");\n' % (e_, lab) for e_, lab in zip(enss, sp.labels)) + '}\n')
+    p = mk_proof(kit, 'QXmppJingleIqContent_parse_payload_loop', ['JContent_parse', 'PayloadType_parse'], None, sp, kit.ctor + '\n' + body, harness,
+                 kind='bounded', bound_text='at most 2 <payload-type/> children, at most 1 parameter per payload type, at most 1 other child / candidate; all loops of Content::parse unwound with unwinding assertions',
+                 unwindset=['JContent_parse.0:3', 'JContent_parse.1:4', 'JContent_parse.2:3', 'PayloadType_parse.0:3'], timeout=1200,
+                 note='real QXmppJingleIq::Content::parse on an ARBITRARY foreign <content/> (description header, encryption, rtcp-fb, header extensions, candidates, fingerprint as contract-only stubs) and real '
+                      'QXmppJinglePayloadType::parse: the payload type stored at an arbitrary witness position k equals parse() of the k-th child on a fresh default object, member by member; plain harness: '
+                      'preconditions as assumptions on nondeterministic inputs, postconditions as labelled assertions')
+    p.labels = {}
+    return kit, [p]
+
+
+# ---------------------------------------------------------------------------------------------------------------------
+# C02: the <stream:error/> branch of QXmppOutgoingClient::handleElement -- "no exception escapes" (std::get on a std::variant)
+OC = 'src/client/QXmppOutgoingClient.cpp'
+HE_MODEL = '''
+/* QXmppOutgoingClient::handleElement with everything it calls as contract-only stubs with ARBITRARY results (those callees are the
+   subject of C04 / C08 / C09 / C10); what is modelled exactly is the std::variant returned by StreamErrorElement::fromDom */
+typedef int mgr;                                   /* a manager / socket / configuration / features object: opaque */
+typedef struct OutClient { char unused_; } OutClient;
+typedef struct StreamErrorElementV { int opaque; } StreamErrorElementV;
+typedef struct StreamErrorResult { bool is_element; StreamErrorElementV element; } StreamErrorResult;    /* std::variant<StreamErrorElement, QXmppError> */
+/* ASSUMED contract of StreamErrorElement::fromDom (Stream.cpp): either alternative may come back (QXmppError when the element has no
+   known condition child) */
+static inline void StreamErrorElement_fromDom_stub(StreamErrorResult *_ret, qdom e) { (void)e; _ret->is_element = nondet_bool(); _ret->element.opaque = nondet_int(); }
+static inline StreamErrorElementV *StreamErrorResult_get_if(StreamErrorResult *r) { return r->is_element ? &r->element : (StreamErrorElementV *)0; }
+/* std::get<StreamErrorElement>(v) throws std::bad_variant_access when v holds the other alternative: the exception would leave the
+   socket's readyRead slot.  The path ends there (after the obligation has been reported). */
+static inline StreamErrorElementV *StreamErrorResult_get(StreamErrorResult *r) {
+  __CPROVER_assert(r->is_element, "[safety.no_exception_escapes] std::get<StreamErrorElement> on a variant that holds QXmppError throws std::bad_variant_access");
+  __CPROVER_assume(r->is_element);
+  return &r->element; }
+int gh_stream_errors_handled;
+static inline bool mgr_handleStanza_stub(mgr m, qdom e) { (void)m; (void)e; return nondet_bool(); }
+static inline void signal_elementReceived_stub(OutClient *c, qdom e, bool *handled) { (void)c; (void)e; *handled = nondet_bool(); }
+static inline void OutClient_handleStreamError_stub(OutClient *c, const StreamErrorElementV *err) { (void)c; (void)err; if (gh_stream_errors_handled < 1000) gh_stream_errors_handled++; }
+'''
+
+
+def he_kit(uid, work):
+    T = codec.SCALAR_TYPES
+    P = 'QXmpp::Private::'
+    T.update({'QXmppOutgoingClient': 'OutClient', 'std::variant<StreamErrorElement,QXmppError>': 'StreamErrorResult', 'std::variant<QXmpp::Private::StreamErrorElement,QXmppError>': 'StreamErrorResult',
+              'StreamErrorElement': 'StreamErrorElementV', P + 'StreamErrorElement': 'StreamErrorElementV', 'typename remove_reference<StreamErrorElement>::type': 'StreamErrorElementV',
+              'add_pointer_t<StreamErrorElement>': 'StreamErrorElementV*', 'add_pointer_t<QXmpp::Private::StreamErrorElement>': 'StreamErrorElementV*',
+              'variant_alternative_t<0,variant<StreamErrorElement,QXmppError>>': 'StreamErrorElementV',
+              'QXmppStreamFeatures': 'mgr', 'QXmppConfiguration': 'mgr', P + 'XmppSocket': 'mgr', 'XmppSocket': 'mgr', P + 'StreamAckManager': 'mgr', 'StreamAckManager': 'mgr',
+              P + 'OutgoingIqManager': 'mgr', 'OutgoingIqManager': 'mgr', 'QSslSocket': 'mgr'})
+    codec.OPAQUE_ENUMS.update({'HandleElementResult', P + 'HandleElementResult', 'QXmppConfiguration::StreamSecurityMode', 'StreamSecurityMode'})
+    codec.HELPERS['OutClient_handleElement'] = (OC, 'QXmppOutgoingClient::handleElement', 'handleElement', {'this': 'OutClient'}, codec.NS)
+    kit = codec.Kit(uid, work)
+
+    def from_dom(lw, node, args):
+        t = lw.ntype(lw.skip(node))
+        if t != 'StreamErrorResult':
+            raise Unsupported('fromDom returning %s' % t)
+        tmp = lw.newtmp()
+        lw.pre.append('StreamErrorResult %s; StreamErrorElement_fromDom_stub(&%s, %s);' % (tmp, tmp, args[0]))
+        return tmp
+
+    def std_get(lw, node, args):
+        if lw.ntype(lw.skip(node['inner'][1])) != 'StreamErrorResult':
+            raise Unsupported('std::get on %s' % lw.tkey(lw.skip(node['inner'][1])))
+        return '(*StreamErrorResult_get(%s))' % args[0]
+
+    kit.prof.calls.update({
+        'OutClient::streamAckManager/0': ('expr', '((mgr)1)'), 'OutClient::iqManager/0': ('expr', '((mgr)2)'), 'OutClient::socket/0': ('expr', '((mgr)3)'), 'OutClient::configuration/0': ('expr', '((mgr)4)'),
+        'mgr::handleStanza/1': ('fn', 'mgr_handleStanza_stub'),
+        'mgr::isEncrypted/0': ('expr', 'nondet_bool()'), 'mgr::streamSecurityMode/0': ('expr', 'nondet_int()'),
+        'OutClient::elementReceived/2': lambda lw, node, args: 'signal_elementReceived_stub(%s, %s, %s)' % (args[0], args[1], args[2] if args[2].startswith('&') else lw.addr_of(args[2])),
+        'fn:isStreamFeatures/1': ('expr', 'nondet_bool()'),
+        'ctor:mgr()': ('const', '0'), 'mgr::parse/1': ('expr', '(void)0'),
+        'OutClient::handleStreamFeatures/1': ('expr', '(void)0'),
+        'fn:fromDom/1': from_dom, 'fn:get_if/1': lambda lw, node, args: 'StreamErrorResult_get_if(%s)' % args[0], 'fn:get/1': std_get,
+        'OutClient::handleStreamError/1': ('fn', 'OutClient_handleStreamError_stub'),
+        'OutClient::handleStanza/1': ('expr', 'nondet_bool()'),
+    })
+    kit.prof.class_types |= {'OutClient', 'StreamErrorResult', 'StreamErrorElementV'}
+    kit.prof.pure_fns |= {'streamAckManager', 'iqManager', 'socket', 'configuration'}
+    kit.prefetch([(OC, 'QXmppOutgoingClient::handleElement')])
+    kit.records = kit.records + HE_MODEL
+    kit.need('OutClient_handleElement')
+    return kit
+
+
+def he_proofs(uid, work, mk_proof, which):
+    """C02 only"""
+    if which != 'fixpoint':
+        return None, []
+    kit = he_kit(uid, work)
+    vals = ctx.enum_values(os.path.join(REPO, OC), 'HandleElementResult')
+    L = ['__CPROVER_requires(__CPROVER_is_fresh(self, sizeof(*self)))',
+         '__CPROVER_assigns(gh_stream_errors_handled)',
+         '//: post.a_stream_error_element_is_accepted_or_consumed_earlier',
+         '__CPROVER_ensures((xdom_namespaceURI(nodeRecv) == S("http://etherx.jabber.org/streams") && xdom_tagName(nodeRecv) == S("error")) ==> __CPROVER_return_value == %d)' % vals['Accepted'],
+         '//: post.result_is_a_declared_enumerator', '__CPROVER_ensures(%s)' % ' || '.join('__CPROVER_return_value == %d' % v for v in sorted(vals.values()))]
+    sp = Spec(kit.b.subst('## contract\n' + '\n'.join(L) + '\n'))
+    text = kit.with_contract('OutClient_handleElement', sp)
+    p = mk_proof(kit, 'QXmppOutgoingClient_handleElement_no_exception', ['OutClient_handleElement'], 'OutClient_handleElement', sp, '',
+                 'void h_OutClient_handleElement(void) { OutClient *self; qdom e; gh_stream_errors_handled = 0; OutClient_handleElement(self, e); }', override={'OutClient_handleElement': text},
+                 note='real QXmppOutgoingClient::handleElement for EVERY element and every answer of its callees (managers, signal, features, handleStanza: contract-only stubs with arbitrary results); '
+                      'StreamErrorElement::fromDom through its assumed contract (either alternative of the std::variant); std::get on the wrong alternative is the obligation safety.no_exception_escapes')
+    p.expect_post = len(sp.labels)
+    return kit, [p]
